@@ -125,6 +125,9 @@ pub struct Extra {
 	pub item: usize,
 	pub fstart: usize,
 	pub fend: usize,
+	/// extra bytes after the known fields of Game Start / Game End (already part of `start` / `end` bytes)
+	pub gstart: usize,
+	pub gend: usize,
 }
 
 #[derive(Clone, Debug, PartialEq, Eq)]
@@ -472,7 +475,7 @@ pub fn model_from_raw(raw: &RawFile) -> Result<ModelGame, String> {
 			None => Ok(0),
 		}
 	};
-	let extra = Extra { pre: ex(Kind::Pre)?, post: ex(Kind::Post)?, item: ex(Kind::Item)?, fstart: ex(Kind::FrameStart)?, fend: ex(Kind::FrameEnd)? };
+	let extra = Extra { pre: ex(Kind::Pre)?, post: ex(Kind::Post)?, item: ex(Kind::Item)?, fstart: ex(Kind::FrameStart)?, fend: ex(Kind::FrameEnd)?, gstart: 0, gend: 0 };
 	let mut m = ModelGame { version, layout, start, ports, frames: Vec::new(), gecko: None, end: EndSpec::None, metadata: None, extra };
 	let slots = m.slots();
 	let ns = slots.len();
